@@ -206,6 +206,12 @@ func runAnswer(c AnswerCase) *ev.Failure {
 	} else if i >= 0 {
 		return ev.Failf("answer-result-code-unasked", "%s: wire image carries a Result-Code at index %d although none was asked for", where, i)
 	}
+	// the owner of this answer may go on editing it (downgrade the result, add AVPs): that must
+	// not reach the answers built later, for this or any other request
+	if c.RC != 0 && len(a.AVP) > 0 {
+		a.AVP[0].Data = datatype.Unsigned32(c.RC ^ 0x5a5a5a5a)
+		a.AVP[0].Flags = 0
+	}
 	return nil
 }
 
